@@ -340,6 +340,10 @@ def run(ctx, report: Report) -> None:
     r6 = report.rule('C16-R6', 'import-time code does not operate on docstrings (None under -OO)')
     docstring_rule(ctx, r6, reach)
 
+    # ---- R7 ----------------------------------------------------------------------------------------------
+    r7 = report.rule('C16-R7', 'text is never compared with bytes (BytesWarning under -b at import time)')
+    str_bytes_rule(ctx, r7)
+
 
 def bs4_call_order_rule(ctx, rule, facts):
     """Every call `self.api.<function>(...)` in bs4/css.py: each positional argument that is a parameter of the calling bs4 method
@@ -443,3 +447,55 @@ def docstring_rule(ctx, rule, reach):
                                            f'{where}: {risky} runs while the package is imported; with docstrings stripped (python -OO) __doc__ is None and the '
                                            f'import of soupsieve - and of bs4, which imports it - fails')
     rule.instance({'docstring_reads_at_import_time': n}, key='doc-census', nontrivial=False)
+
+
+def str_bytes_rule(ctx, rule):
+    """No comparison of text with bytes anywhere in the package: `'x' == b'x'`, `text in (.., b'..')`, `text.startswith(b'..')` are
+    False / TypeError at best and print a BytesWarning under `python -b` (raise under -bb) - also while the package is imported,
+    since the selector tables are compiled at import time.  Decided from the inferred types (mypy) of both sides."""
+    src, tf = ctx.src, ctx.types
+
+    def kinds(t):
+        """{'str', 'bytes'} found in a type, looking into tuples / unions / containers one level deep."""
+        out = set()
+        if t is None:
+            return out
+        text = tf.show(t)
+        for x in tf.items(t):
+            nm = type(x).__name__
+            if nm == 'Instance':
+                fn = x.type.fullname
+                if fn == 'builtins.str':
+                    out.add('str')
+                elif fn in ('builtins.bytes', 'builtins.bytearray'):
+                    out.add('bytes')
+                for a in getattr(x, 'args', ()) or ():
+                    out |= kinds(a)
+            elif nm == 'TupleType':
+                for a in x.items:
+                    out |= kinds(a)
+            elif nm == 'LiteralType':
+                out |= kinds(x.fallback)
+        return out
+    n = 0
+    for mn, mod in src.mods.items():
+        for x in ast.walk(mod.tree):
+            pairs = []
+            if isinstance(x, ast.Compare) and len(x.ops) == 1 and isinstance(x.ops[0], (ast.Eq, ast.NotEq, ast.In, ast.NotIn)):
+                pairs.append((x.left, x.comparators[0], unparse(x)))
+            elif isinstance(x, ast.Call) and isinstance(x.func, ast.Attribute) and x.func.attr in ('startswith', 'endswith', 'find', 'index', 'count', 'replace', 'split') and x.args:
+                pairs.append((x.func.value, x.args[0], unparse(x)))
+            for a, b, text in pairs:
+                ka, kb = kinds(tf.type_of(mn, a)), kinds(tf.type_of(mn, b))
+                if not ka or not kb:
+                    continue
+                n += 1
+                mixed = (ka == {'str'} and 'bytes' in kb) or (ka == {'bytes'} and 'str' in kb)
+                if mixed:
+                    rule.instance({'where': mod.where(x), 'expression': text[:70], 'left': sorted(ka), 'right': sorted(kb)}, key=f'strbytes|{mod.where(x)}')
+                    rule.obligation(False)
+                    rule.violation(f'{mn} compares text with bytes: {text[:50]}', mod.where(x),
+                                   f'`{text[:80]}` compares a {sorted(ka)[0]} value with {sorted(kb)}: never equal, and a BytesWarning under `python -b` '
+                                   f'(an exception under -bb) - the selector tables of the package are compiled at import time, so importing soupsieve (and bs4) '
+                                   f'prints warnings / fails')
+    rule.instance({'comparisons_with_inferred_string_types': n}, key='strbytes-census', nontrivial=False)
